@@ -796,6 +796,14 @@ fn format_oracle(cfg: &HistCfg, db: RawDb, rtxn: &RoTxn, ix: &DIndex, w: &mut Wo
         Some(m) => m,
         None => return Err(("F/no-metadata".into(), "no metadata record after a build".into())),
     };
+    // the version record (written by the single-bucket build path): three u32, big-endian, the crate's version
+    if let Some(v) = ix.version {
+        w.count("version_records_judged", 1);
+        let want = crate::upgrade::arroy_version();
+        if [v.0, v.1, v.2] != want {
+            return Err(("F/version-record".into(), format!("the version record reads {}.{}.{} under the reference layout (three u32, big-endian), the crate is {}.{}.{}", v.0, v.1, v.2, want[0], want[1], want[2])));
+        }
+    }
     with_metric!(cfg.metric, D => {
         let r = catch(|| -> Result<(), oracle::Fail> {
             let reader = arroy::Reader::<D>::open(rtxn, cfg.index, arroy_db::<D>(db))
